@@ -3,7 +3,7 @@
    responses are accepted) and C11 (the scoped PDU only travels as the privacy plug-in's ciphertext).
    TLC decodes the request datagram itself with Ber.tla; the numeric MAC verdict (digest_ok) and the
    independently localised privacy key (expkey) are facts established by the reference agent. *)
-EXTENDS Ber, TraceBase
+EXTENDS Ber, TraceBase, AgentOpsErr
 VARIABLES tid, l, verdict
 vars == <<tid, l, verdict>>
 Ev == Traces[tid].events
@@ -26,8 +26,9 @@ On(e) ==
      <<"context_name", d.ctxname = i.ctxname>>,
      <<"pdu_type", d.pdu.ptype = i.ptype>>,
      <<"later_request_rejected", \A k \in DOMAIN e.verdicts : e.verdicts[k] = "ok">>,
-     <<"authentic_response_rejected", e.ret.kind = "result">>,
-     <<"authentic_response_altered", e.ret.match>> >>
+     \* an authentic response is accepted and decoded - also when it is an error response (then: as the documented exception of its status)
+     <<"authentic_response_rejected", IF Has(e, "agent_es") /\ e.agent_es # 0 THEN e.ret.kind = "exc" /\ e.ret.cls = ErrClass(e.agent_es) ELSE e.ret.kind = "result">>,
+     <<"authentic_response_altered", (Has(e, "agent_es") /\ e.agent_es # 0) \/ e.ret.match>> >>
   \o (IF e.level # "authpriv" THEN <<>> ELSE
   << <<"plaintext_on_wire", ~e.secret_visible>>,
      <<"payload_not_plugin_ciphertext", d.cipher = e.enc.out /\ d.cipher # <<>>>>,
